@@ -331,6 +331,13 @@ Qed.
 Definition system_stuck (c : config) (s : state) : Prop :=
   forall l, is_system l = true -> step c s l = None.
 
+(* with measure 0 after shutdown start, nothing of the implementation is enabled *)
+Lemma mu_zero_stuck c s : sd s <> SdNot -> mu c s = 0 -> system_stuck c s.
+Proof.
+  intros Hsd M l Hl. destruct (step c s l) as [s2|] eqn:E; [|reflexivity]. exfalso.
+  pose proof (mu_system_step _ _ _ _ Hsd Hl E) as X. rewrite M in X. inversion X.
+Qed.
+
 Lemma progress_is_system l : is_progress l = true -> is_system l = true.
 Proof. destruct l; cbn; try discriminate; auto. destruct b; auto. Qed.
 
